@@ -3,7 +3,11 @@ package detect
 import (
 	"errors"
 	"io"
+	"runtime"
+	"sort"
 	"strings"
+	"sync"
+	"time"
 
 	"github.com/Trisia/randomness"
 )
@@ -14,6 +18,7 @@ import (
 // harness/detect_overlay/round.go which serves the scripted results.
 
 type vScriptT struct {
+	mu       sync.Mutex
 	s, items int
 	pass     [][]bool
 	q        [][]float64
@@ -21,6 +26,7 @@ type vScriptT struct {
 	round    []string // which round function was called
 	bufLen   []int    // length of the buffer each call received
 	bufPos   []int    // stream position of the first byte of the buffer each call received
+	bufFresh []int    // number of leading bytes of that buffer that are consecutive stream bytes from bufPos on
 }
 
 var vScript *vScriptT
@@ -57,6 +63,8 @@ func vRoundBufPos(k int) int  { return vScript.bufPos[k] }
 // scripted round: result k of item j has the declared Pass and Q (called from the overlay round.go)
 func vScriptedRound(name string, data []byte, n int) []*randomness.TestResult {
 	sc := vScript
+	sc.mu.Lock()
+	defer sc.mu.Unlock()
 	k := sc.calls
 	sc.calls++
 	sc.round = append(sc.round, name)
@@ -70,6 +78,13 @@ func vScriptedRound(name string, data []byte, n int) []*randomness.TestResult {
 		}
 	}
 	sc.bufPos = append(sc.bufPos, pos)
+	fresh := 0
+	if pos >= 0 && pos%4 == 0 {
+		for fresh < len(data) && data[fresh] == vStreamByte(0, pos+fresh) {
+			fresh++
+		}
+	}
+	sc.bufFresh = append(sc.bufFresh, fresh)
 	res := make([]*randomness.TestResult, n)
 	for j := 0; j < n; j++ {
 		r := &randomness.TestResult{}
@@ -95,6 +110,7 @@ type vStream struct {
 	// content: 0 offset stamps, 1 all 256 byte values in turn, 2 sixteen bytes covering every nibble equally,
 	// 3 constant 0x1B (00 01 10 11), 4 zeros
 	kind int
+	mu   sync.Mutex // Read is safe for concurrent use
 }
 
 func vStreamByte(kind, i int) byte {
@@ -114,6 +130,8 @@ func vStreamByte(kind, i int) byte {
 }
 
 func (s *vStream) Read(p []byte) (int, error) {
+	s.mu.Lock()
+	defer s.mu.Unlock()
 	s.reads++
 	n := len(p)
 	if s.maxChunk > 0 && n > s.maxChunk {
@@ -166,3 +184,102 @@ func vPokerExpect(kind, n, m int) float64 {
 	p, _ := randomness.PokerTestBytes(data, m)
 	return p
 }
+
+func vRoundBufFresh(k int) int { return vScript.bufFresh[k] }
+
+// forget the calls made so far (the declared results stay): the next round call is call 0 again
+func vScriptReset() {
+	sc := vScript
+	sc.calls, sc.round, sc.bufLen, sc.bufPos, sc.bufFresh = 0, nil, nil, nil, nil
+}
+
+// the s buffers seen by the round function are, in some order, the stream blocks [k*nbytes, (k+1)*nbytes)
+func vRoundPosOK(s, nbytes int) bool {
+	sc := vScript
+	if len(sc.bufPos) != s {
+		return false
+	}
+	ps := append([]int(nil), sc.bufPos...)
+	sort.Ints(ps)
+	for k := 0; k < s; k++ {
+		if ps[k] != k*nbytes {
+			return false
+		}
+	}
+	return true
+}
+
+// failure kinds: 0 io.EOF, 1 a custom error, 2 io.ErrUnexpectedEOF
+func vFailErr(kind int) error {
+	switch kind {
+	case 1:
+		return vErrCustom
+	case 2:
+		return io.ErrUnexpectedEOF
+	}
+	return nil
+}
+
+func fastRun(which int, src io.Reader) (bool, error) {
+	switch which {
+	case 0:
+		return FactoryDetectFast(src)
+	case 1:
+		return PowerOnDetectFast(src)
+	default:
+		return PeriodDetectFast(src)
+	}
+}
+
+var vErrHang = errors.New("verif: workflow did not return within the watchdog time (hang)")
+
+// vGuard runs a parallel workflow under a watchdog: a hang is reported as a failure instead of blocking the replay
+func vGuard(which int, src io.Reader) (bool, error) {
+	type res struct {
+		ok  bool
+		err error
+	}
+	ch := make(chan res, 1)
+	go func() {
+		ok, err := fastRun(which, src)
+		ch <- res{ok, err}
+	}()
+	select {
+	case r := <-ch:
+		return r.ok, r.err
+	case <-time.After(60 * time.Second):
+		vFailures = append(vFailures, "HANG: parallel workflow did not return within 60s")
+		return false, vErrHang
+	}
+}
+
+func vGoroutines() int { return runtime.NumGoroutine() }
+
+// are there more goroutines than before, after giving finished ones time to exit ?
+func vGoroutineLeak(before int) bool {
+	for i := 0; i < 50; i++ {
+		if runtime.NumGoroutine() <= before {
+			return false
+		}
+		time.Sleep(20 * time.Millisecond)
+	}
+	return true
+}
+
+// one iteration of the real worker for job index i (the jobs channel holds just i and is closed)
+func vWorkerIteration(i int, counters []int32, dist [][]float64, items int) {
+	jobs := make(chan int, 1)
+	jobs <- i
+	close(jobs)
+	var wg sync.WaitGroup
+	wg.Add(1)
+	var state readState
+	round := Round15
+	if items == 12 {
+		round = Round12
+	}
+	worker(jobs, &vStream{failAt: -1}, &state, 2500, round, counters, dist, &wg)
+}
+
+// number of source reads made outside any lock (symbolic runs only; natively unknown: 0)
+func vReadsUnlocked() int { return 0 }
